@@ -121,7 +121,7 @@ def rule_tx(ctx, repo):
                 'total-range:running', common.site_of(fi, n3), 'the total is updated before each range test', 'the running total is not accumulated before the range test inside the loop')
     init = [norm(s.value) for s in walk_no_nested(fi.node) if isinstance(s, ast.Assign) and norm(s.targets[0]) == 'nValueOut']
     r.check(init == ['0'], 'total-range:starts-at-zero', fi.site, 'total starts at 0', 'nValueOut is initialised as %s' % init)
-    n4 = expect(r, 'duplicate-inputs', fi, gs, ['txin.prevout in vin_outpoints'], E, 'an outpoint spent twice is refused', ('prevout in', 'vin_outpoints'))
+    n4 = expect(r, 'duplicate-inputs', fi, gs, ['txin.prevout in vin_outpoints'], E, 'an outpoint spent twice is refused', ('prevout in', 'len(vin_outpoints)'))
     if n4 is not None:
         it, lp = loop_over(fi, n4)
         adds = [norm(s) for s in lp.body] if lp else []
